@@ -283,6 +283,7 @@ type dnsOp struct {
 	chain    *dnsChain // upstream queries issued by this op's own task
 	refreshSpawned bool
 	expectReject bool
+	useUncertain bool         // the op's lookup overlapped a replacement of its key's entry
 	pre          *dnsEntryObs // entry cached under the op's key when the op began
 	reloadOverlap int
 	rs           *dnsRuleSet // rules in force when the op began
